@@ -87,7 +87,7 @@ example :
 theorem C15_far_future_never_processed (cfg : Cfg) (O : Oracle) (st : PSt) (it : Item)
     (hrange : st.highest + 1 + cfg.bufNum < 4294967296)
     (hfar : it.lamport > st.highest + 1 + cfg.bufNum) :
-    handle cfg O st it 0 = (relTag (st1Of st) it.tag it.ev.size errSpilled, []) ∧
+    handle cfg O st it 0 = (relTag (st1Of (mark st it)) it.tag it.ev.size errSpilled, []) ∧
     (handle cfg O st it 0).1.buf = st.buf ∧
     (handle cfg O st it 0).1.relNum = st.relNum + 1 := by
   have hff : Gen.Buffer.farFuture it.lamport st.highest (Gen.Buffer.maxLamportDiff cfg.bufNum) = true := by
@@ -100,7 +100,7 @@ theorem C15_far_future_never_processed (cfg : Cfg) (O : Oracle) (st : PSt) (it :
     rw [h3]
     simp only [decide_eq_true_eq]
     omega
-  have e : handle cfg O st it 0 = (relTag (st1Of st) it.tag it.ev.size errSpilled, []) := by
+  have e : handle cfg O st it 0 = (relTag (st1Of (mark st it)) it.tag it.ev.size errSpilled, []) := by
     rw [handle_eq]
     simp [hff]
   refine ⟨e, ?_, ?_⟩ <;> rw [e] <;> rfl
@@ -112,8 +112,8 @@ example : Gen.Buffer.farFuture 14 3 (Gen.Buffer.maxLamportDiff 10) = false ∧
 /-- **Rejected events** (failed `CheckParentless`) are released at once with the check's error and never
     reach the buffer. -/
 theorem C15_rejected_never_processed (cfg : Cfg) (O : Oracle) (st : PSt) (it : Item) (err : Nat) (herr : err ≠ 0) :
-    handle cfg O st it err = (relTag st it.tag it.ev.size err, []) ∧ (handle cfg O st it err).1.buf = st.buf := by
-  have e : handle cfg O st it err = (relTag st it.tag it.ev.size err, []) := by
+    handle cfg O st it err = (relTag (mark st it) it.tag it.ev.size err, []) ∧ (handle cfg O st it err).1.buf = st.buf := by
+  have e : handle cfg O st it err = (relTag (mark st it) it.tag it.ev.size err, []) := by
     rw [handle_eq]
     simp [herr]
   exact ⟨e, by rw [e]; rfl⟩
